@@ -8,6 +8,8 @@ OBLIGATIONS = ['Yalafi.C16_protect_no_quote', 'Yalafi.C16_protect_lt_count', 'Ya
 ALLOWED = {'html', 'head', 'meta', 'body', 'table', 'tr', 'td', 'span', 'a', 'br', 'h3', 'h2', 'ul', 'li', 'hr'}
 HOSTILE = ['<', '>', '&', '"', "'", '<script>', '</td>', '&amp;', '\t', '  ', 'x', 'word', 'ä', '€', '<br>', '">', '-->', '<!--',
            # characters that str.splitlines() treats as line boundaries although the file has no line break there
+           # control symbols and control words (a match on a single backslash is extended to the macro name it starts)
+           '\\&', '\\%', 'x\\,y', '\\textbf{bold}', '\\emph', '\\',
            '\x0c', 'a\x0bb', '\x1c', '\x1d', '\x1e', '\x85', 'a\u2028b', '\u2029']
 
 def gen_doc(rng):
@@ -34,7 +36,10 @@ def gen_matches(rng, doc):
         o, l = ms[0]
         ms.append((min(n - 2, o + rng.choice([0, 1, l // 2, l])), rng.choice([0, 1, 3])))
         ms[-1] = (max(0, ms[-1][0]), min(ms[-1][1], n - 1 - ms[-1][0]))
-    return sorted(ms)      # the shell sorts by position anyway
+    for k, ch in enumerate(doc[:-1]):
+        if ch == '\\' and rng.random() < 0.5 and len(ms) < 6:
+            ms.append((k, rng.choice([1, 1, 0])))
+    return sorted(set(ms))      # the shell sorts by position anyway
 
 class P(HTMLParser):
     def __init__(self):
@@ -116,7 +121,12 @@ def judge(case, r):
         if m:
             by.setdefault(m.group(1), []).append(txt)
     for i, (o, l) in enumerate(case['matches']):
-        want = doc[o:o + max(1, l)].replace('\t', ' ' * 8)
+        ell = max(1, l)
+        if ell == 1 and doc[o:o + 1] == '\\':
+            mm = re.match(r'\\[A-Za-z]+', doc[o:])      # documented: a match on a lone backslash also marks the macro name it starts
+            if mm:
+                ell = len(mm.group(0))
+        want = doc[o:o + ell].replace('\t', ' ' * 8)
         got = by.get('M%d' % i)
         if got is None:
             fails.append('match %d at (%d,%d) is not highlighted at all' % (i, o, l)); break
